@@ -127,13 +127,6 @@ func c09EvalSeq(al []Op, idx []int, hook bool, doPanicReport bool, seen ...func(
 
 // c09StepInvariant: step-local form of the C09 equalities on one transition.
 func c09StepInvariant(s *buffer.Buffer, op *bufOp, s2 *buffer.Buffer) string {
-	st2 := s2.VerifState()
-	if st2.MarkerOpen && st2.Mode != buffer.UnsafeEscaped {
-		return fmt.Sprintf("after %s: envelope open in mode %d", op.Name, st2.Mode)
-	}
-	if st2.ValidUntil < 0 || st2.ValidUntil > len(st2.Buf) {
-		return fmt.Sprintf("after %s: escaped-prefix mark %d outside [0,%d]", op.Name, st2.ValidUntil, len(st2.Buf))
-	}
 	c2 := s2.VerifClone()
 	f2 := []byte(c2.RedactableString())
 	if d := wfChecks(f2); d != "" {
